@@ -570,7 +570,7 @@ func (c *FuncCtx) specBuiltin(st *State, name string, x *ast.CallExpr) ([]*Val, 
 			t = tInt
 		}
 		return []*Val{{T: t, S: mkSel(app(uf, v.S), k.S), Sort: "Int"}}, true
-	case "ncalls", "callarg":
+	case "ncalls", "callarg", "callres", "calltime":
 		return c.traceBuiltin(st, name, x)
 	case "fst", "snd":
 		vs := c.evalMulti(st, x.Args[0])
@@ -1092,6 +1092,9 @@ func (c *FuncCtx) applyContract(st *State, con *Contract, sig *types.Signature, 
 	if len(results) == 1 {
 		st.bound["$result"] = results[0]
 	}
+	if con.Traced {
+		c.traceResults(st, key, results)
+	}
 	for _, cl := range con.clauses("ensures") {
 		v := c.eval(st, cl.Expr)
 		st.assume(v.S)
@@ -1408,6 +1411,10 @@ func (c *FuncCtx) bindLet(st *State, cl *Clause, env map[string]*Val) {
 // guarded by cond (also a pre-state condition).  emit receives the guarded
 // formula of every inherited clause.
 func (c *FuncCtx) likeClauses(st *State, con *Contract, env map[string]*Val, results []*Val, emit func(cl *Clause, idx int, formula string, text string)) {
+	c.likeClausesM(st, con, env, results, false, emit)
+}
+
+func (c *FuncCtx) likeClausesM(st *State, con *Contract, env map[string]*Val, results []*Val, check bool, emit func(cl *Clause, idx int, formula string, text string)) {
 	for li, lk := range con.clauses("like") {
 		key := traceNameOf(lk.Like.Fun)
 		callee := c.eng.spec.Contracts[key]
@@ -1450,13 +1457,30 @@ func (c *FuncCtx) likeClauses(st *State, con *Contract, env map[string]*Val, res
 		}
 		env2 := bindHeader(callee, recv, args)
 		names := headerResults(callee)
-		for i, n := range names {
-			if n != "" && i < len(results) {
-				env2[n] = results[i]
+		var ignored []string // fresh constants standing for discarded results
+		var ignoredSorts []string
+		if lk.NoResult {
+			// the callee's results are discarded by this function
+			if fd, ok := c.eng.funcs[key]; ok {
+				sig := c.eng.info.Defs[fd.Name].(*types.Func).Type().(*types.Signature)
+				for i, n := range names {
+					if n != "" && i < sig.Results().Len() {
+						rt := sig.Results().At(i).Type()
+						env2[n] = c.val(c.fresh("ignored_"+n, c.eng.sortOf(rt)), rt)
+						ignored = append(ignored, env2[n].S)
+						ignoredSorts = append(ignoredSorts, env2[n].Sort)
+					}
+				}
 			}
-		}
-		if len(results) == 1 {
-			env2["$result"] = results[0]
+		} else {
+			for i, n := range names {
+				if n != "" && i < len(results) {
+					env2[n] = results[i]
+				}
+			}
+			if len(results) == 1 {
+				env2["$result"] = results[0]
+			}
 		}
 		// callee lets: pre-state
 		for _, cl := range callee.clauses("let") {
@@ -1476,6 +1500,7 @@ func (c *FuncCtx) likeClauses(st *State, con *Contract, env map[string]*Val, res
 			st.pc = tmp.pc
 			st.bound = saved
 		}
+		var collected []string
 		for ei, cl := range callee.clauses("ensures") {
 			saved := st.bound
 			nb := map[string]*Val{"$spec": {S: "1"}}
@@ -1494,7 +1519,24 @@ func (c *FuncCtx) likeClauses(st *State, con *Contract, env map[string]*Val, res
 			if len(tags) == 0 {
 				tags = cl.Tags
 			}
+			if check && len(ignored) > 0 {
+				collected = append(collected, v.S)
+				continue
+			}
 			emit(&Clause{Kind: "ensures", Tags: tags, Text: cl.Text, Expr: cl.Expr, Line: lk.Line}, li*100+ei, mkImplies(cond.S, v.S), fmt.Sprintf("like %s: %s", lk.Text, cl.Text))
+		}
+		if check && len(ignored) > 0 {
+			// the discarded result is existentially quantified: some result
+			// makes all inherited clauses true together
+			body := mkAnd(collected...)
+			var qs []string
+			for i, name := range ignored {
+				bv := c.bvar("ignored")
+				body = strings.ReplaceAll(body, name, bv)
+				qs = append(qs, fmt.Sprintf("(%s %s)", bv, ignoredSorts[i]))
+			}
+			f := fmt.Sprintf("(exists (%s) %s)", strings.Join(qs, " "), body)
+			emit(&Clause{Kind: "ensures", Tags: lk.Tags, Text: lk.Text, Line: lk.Line}, li*100, mkImplies(cond.S, f), "like "+lk.Text+" (for some discarded result)")
 		}
 	}
 }
